@@ -255,6 +255,7 @@ type Exec struct {
 	methCache  map[methKey]*ssa.Function
 	env        map[string]Value // per-path scratch for models
 	atoms      bool
+	sentinels  map[string]Value
 	nAssertUnsat, nAssertConst int64
 	mapOrders  bool
 }
